@@ -54,3 +54,159 @@ func stepPhi(fn *ssa.Function, step int64) *ssa.Phi {
 	}
 	return nil
 }
+
+// loopVar: the offset variable of a scan loop, as an SSA register (a phi
+// stepped on the back edges) or, when a local closure assigns it ("advance :=
+// func() { off = off + DIRENTSZ }"), as the cell that holds it.
+type loopVar struct {
+	fn    *ssa.Function
+	phi   *ssa.Phi
+	cell  *ssa.Alloc
+	steps map[ssa.Instruction]bool // cell form: the statements of fn that advance the variable (a store, or the call of a closure that does on every path)
+}
+
+func findLoopVar(fn *ssa.Function, step int64) *loopVar {
+	if phi := stepPhi(fn, step); phi != nil {
+		return &loopVar{fn: fn, phi: phi}
+	}
+	isStep := func(st *ssa.Store, cellOf func(ssa.Value) ssa.Value, cell ssa.Value) bool {
+		if cellOf(st.Addr) != cell {
+			return false
+		}
+		add, ok := st.Val.(*ssa.BinOp)
+		if !ok || add.Op != token.ADD {
+			return false
+		}
+		ld, ok := add.X.(*ssa.UnOp)
+		if !ok || ld.Op != token.MUL || cellOf(ld.X) != cell {
+			return false
+		}
+		k, isk := constInt(add.Y)
+		return isk && (step == 0 && k > 0 || k == step)
+	}
+	for _, b := range fn.Blocks {
+		for _, in := range b.Instrs {
+			al, ok := in.(*ssa.Alloc)
+			if !ok {
+				continue
+			}
+			if bt, isB := derefType(al.Type()).Underlying().(*types.Basic); !isB || bt.Info()&types.IsInteger == 0 {
+				continue
+			}
+			lv := &loopVar{fn: fn, cell: al, steps: map[ssa.Instruction]bool{}}
+			self := func(v ssa.Value) ssa.Value { return v }
+			for _, b2 := range fn.Blocks {
+				for _, in2 := range b2.Instrs {
+					switch x := in2.(type) {
+					case *ssa.Store:
+						if isStep(x, self, al) {
+							lv.steps[x] = true
+						}
+					case *ssa.Call:
+						cf, binds := closureCallee(x)
+						if cf == nil || cf.Blocks == nil {
+							continue
+						}
+						cellOf := func(v ssa.Value) ssa.Value {
+							if fv, isF := v.(*ssa.FreeVar); isF {
+								for i, q := range cf.FreeVars {
+									if q == fv && i < len(binds) {
+										return binds[i]
+									}
+								}
+							}
+							return v
+						}
+						is := func(y ssa.Instruction) bool {
+							st, isS := y.(*ssa.Store)
+							return isS && isStep(st, cellOf, al)
+						}
+						entry := cf.Blocks[0].Instrs[0]
+						if is(entry) || MustAfter(cf, is, nil)(entry) {
+							lv.steps[x] = true
+						}
+					}
+				}
+			}
+			if len(lv.steps) > 0 {
+				return lv
+			}
+		}
+	}
+	return nil
+}
+
+// is: v denotes the current value of the loop variable.
+func (lv *loopVar) is(v ssa.Value) bool {
+	if lv.phi != nil {
+		return v == ssa.Value(lv.phi)
+	}
+	ld, ok := v.(*ssa.UnOp)
+	return ok && ld.Op == token.MUL && ld.X == ssa.Value(lv.cell)
+}
+
+func (lv *loopVar) pos() token.Pos {
+	if lv.phi != nil {
+		return lv.phi.Pos()
+	}
+	return lv.cell.Pos()
+}
+
+// alwaysAdvances: every way round the loop advances the variable by a positive
+// constant; returns also the number of advancing sites.
+func (lv *loopVar) alwaysAdvances() (bool, int) {
+	if lv.phi != nil {
+		ok, n := true, 0
+		for i, e := range lv.phi.Edges {
+			pred := lv.phi.Block().Preds[i]
+			if !lv.phi.Block().Dominates(pred) {
+				continue // entry edge
+			}
+			n++
+			bo, isB := e.(*ssa.BinOp)
+			if !isB || bo.Op != token.ADD || bo.X != ssa.Value(lv.phi) {
+				ok = false
+				continue
+			}
+			if k, isk := constInt(bo.Y); !isk || k <= 0 {
+				ok = false
+			}
+		}
+		return ok && n > 0, n
+	}
+	// cell form: without the blocks that advance, no cycle is left among the blocks of the function
+	stepBlk := map[*ssa.BasicBlock]bool{}
+	for in := range lv.steps {
+		stepBlk[in.Block()] = true
+	}
+	// every other store to the cell must precede the loop (an initialisation): not inside a cycle
+	for _, r := range refs(lv.cell) {
+		if st, ok := r.(*ssa.Store); ok && st.Addr == ssa.Value(lv.cell) && !lv.steps[st] && reachableFrom(st, st) {
+			return false, len(lv.steps)
+		}
+	}
+	color := map[*ssa.BasicBlock]int{}
+	var cyc bool
+	var dfs func(b *ssa.BasicBlock)
+	dfs = func(b *ssa.BasicBlock) {
+		color[b] = 1
+		for _, s := range b.Succs {
+			if stepBlk[s] {
+				continue
+			}
+			switch color[s] {
+			case 0:
+				dfs(s)
+			case 1:
+				cyc = true
+			}
+		}
+		color[b] = 2
+	}
+	for _, b := range lv.fn.Blocks {
+		if color[b] == 0 && !stepBlk[b] {
+			dfs(b)
+		}
+	}
+	return !cyc, len(lv.steps)
+}
